@@ -3,6 +3,8 @@ from itertools import islice
 from collections import defaultdict, Counter
 from typing import Any, Iterable, Sequence, Optional, Tuple
 
+import coba.random as coba_random
+
 from coba.context import CobaContext
 from coba.utilities import peek_first
 from coba.primitives import Source, Filter, Learner, Environment, Evaluator
@@ -176,6 +178,10 @@ class ProcessTasks(Filter[Iterable[Task], Iterable[Any]]):
 
                 if is_e and is_l and is_v and env_id not in empty_envs:
                     with CobaContext.logger.time(f"Evaluating Learner {lrn_id} on Environment {env_id}..."):
+                        #Learners and environments are free to use the module level functions of coba.random. We seed
+                        #them so that what they draw is determined by the experiment's seed alone and not by what was
+                        #evaluated before in this process (or by the clock, in a newly started background process).
+                        coba_random.seed(CobaContext.store.get("experiment_seed"))
                         yield ["T4", (env_id, lrn_id, val_id), list(SafeEvaluator(val).evaluate(env,lrn))]
                         if hasattr(lrn,'finish') and task.copy: lrn.finish()
 
